@@ -37,13 +37,13 @@ Print Assumptions c11_pipeline_depth.
 (* (a) an address is never announced twice *)
 Theorem c11_pex_never_announced_twice : forall ops p,
   In p (fst (delta (g_st (prun ops)))) -> ~ In (addr p) (g_wire (prun ops)).
-Proof. intros ops p. apply delta_adds_fresh, prun_inv. Qed.
+Proof. exact pex_never_announced_twice. Qed.
 Print Assumptions c11_pex_never_announced_twice.
 
 (* (b) an address that was not announced is never dropped *)
 Theorem c11_pex_drop_only_announced : forall ops p,
   In p (snd (delta (g_st (prun ops)))) -> In (addr p) (g_wire (prun ops)).
-Proof. intros ops p. apply delta_drops_announced, prun_inv. Qed.
+Proof. exact pex_drop_only_announced. Qed.
 Print Assumptions c11_pex_drop_only_announced.
 
 (* (c) every departure of an announced address is queued for reporting, and the queue
@@ -51,7 +51,7 @@ Print Assumptions c11_pex_drop_only_announced.
 Theorem c11_pex_departure_queued : forall ops p,
   In (addr p) (g_wire (prun ops)) ->
   In (addr p) (map addr (px_pending_del (g_st (pstep (prun ops) (PDel p))))).
-Proof. intros ops p. apply del_queues_drop, prun_inv. Qed.
+Proof. exact pex_departure_queued. Qed.
 Print Assumptions c11_pex_departure_queued.
 
 Theorem c11_pex_departures_drain : forall n g,
